@@ -157,6 +157,16 @@ func (w *World) remap(kind string) string {
 	return kind
 }
 
+// unaffordable reports whether no user account holds the fee.
+func (w *World) unaffordable(f *sdk.Coin) bool {
+	for _, a := range w.Accts {
+		if w.S.BankOf(a.String(), f.Denom).Cmp(f.Amount.BigInt()) >= 0 {
+			return false
+		}
+	}
+	return true
+}
+
 func (w *World) remapOnce(kind string) string {
 	s := w.S
 	hasHolding := func() bool {
@@ -172,13 +182,13 @@ func (w *World) remapOnce(kind string) string {
 	case "createClass":
 		if len(s.Allowlist) > 0 && s.Allowlist[0].Enabled && len(s.AllowedCreators) == 0 {
 			need = "addCreator"
-		} else if f := w.RequiredClassFee(); f != nil && f.Amount.GT(sdk.NewInt(1_000_000_000_000)) {
+		} else if f := w.RequiredClassFee(); f != nil && w.unaffordable(f) {
 			need = "updClassFee"
 		}
 	case "basketCreate":
 		if len(s.Classes) == 0 {
 			need = "createClass"
-		} else if f := w.RequiredBasketFee(); f != nil && f.Amount.GT(sdk.NewInt(1_000_000_000_000)) {
+		} else if f := w.RequiredBasketFee(); f != nil && w.unaffordable(f) {
 			need = "updBasketFee"
 		}
 	case "createProject", "updClassAdmin", "updClassIssuers", "updClassMeta", "bridgeReceive":
